@@ -655,11 +655,29 @@ static std::string run_sweep(const CaseFile &c) {
     if (lo < 1 || hi > 0x10FFFF || lo > hi) return "bad case file (sweep range)";
     CaseGuard guard;
     std::string msg;
+    cif_tp *cif = nullptr; cif_block_tp *blk = nullptr;
+    if (c.geti("db")) {   // also offer the code point as the FIRST character of a block code and a frame code (needs a managed CIF)
+        if (cif_create(&cif) != CIF_OK || cif_create_block(cif, u"c09s", &blk) != CIF_OK) msg = "cannot set up a managed CIF";
+    }
     for (long cp = lo; cp <= hi && msg.empty(); cp += step) {
         if (is_c1((uint32_t) cp) && !c.geti("strict")) { count_excluded("F-C1CTRL"); continue; }
         msg = sweep_cp((uint32_t) cp, normed); tested++;
+        if (msg.empty() && cif) {
+            ustr code = cp_str((uint32_t) cp) + u"a"; Verdict v = code_verdict(code); cif_container_tp *h = nullptr;
+            int rc = cif_create_block(cif, U(code), &h);
+            msg = expect_v(rc, v, CIF_INVALID_BLOCKCODE, "cif_create_block(" + show(code) + ")");
+            if (rc == CIF_OK) { int r2 = cif_container_destroy(h); if (r2 != CIF_OK && msg.empty()) msg = "cif_container_destroy returned " + rcname(r2); }
+            if (msg.empty()) {
+                h = nullptr; rc = cif_container_create_frame(blk, U(code), &h);
+                msg = expect_v(rc, v, CIF_INVALID_FRAMECODE, "cif_container_create_frame(" + show(code) + ")");
+                if (rc == CIF_OK) { int r2 = cif_container_destroy(h); if (r2 != CIF_OK && msg.empty()) msg = "cif_container_destroy returned " + rcname(r2); }
+            }
+            note("sweep_codes_in_db", 1);
+        }
         if (!msg.empty()) { char b[48]; snprintf(b, sizeof b, "[sweep U+%04lX] ", cp); msg = b + msg; }
     }
+    if (blk) cif_container_free(blk);
+    if (cif) { int rc = cif_destroy(cif); if (rc != CIF_OK && msg.empty()) msg = "cif_destroy returned " + rcname(rc); }
     note("sweep_codepoints", tested); note("sweep_normalised", normed);
     if (msg.empty()) msg = guard.check();
     return msg;
@@ -920,7 +938,8 @@ static void drive(const CaseFile &c) {
         if (a != b && differ_case_and_form(a, b)) label(mode + ":variant-differs-in-case-and-form");
         if (count_marks(a) >= 2) label(mode + ":>=2-marks");
     }
-    if (c.serialize().size() < 400) sample(brief(c));
+    static long seen = 0;
+    if (c.serialize().size() < 400 && (mode != "norm" || seen++ % 8 == 0)) sample(brief(c));
     std::string m = run_case(c);
     if (!m.empty()) { record_fail(c, m); RC_FAIL(m); }
 }
@@ -946,16 +965,16 @@ static bool run_sweeps() {
     { const std::string &id = worker_id(); size_t u = id.find('_'); w = atoi(id.substr(u == std::string::npos ? 0 : u + 1).c_str()) % nw; }
     long vseed = (long) (rc::detail::configuration().testParams.seed / 1000);
     std::vector<CaseFile> cases;
-    auto add = [&](long lo, long hi, long step) { CaseFile c; c.set("mode", "sweep"); c.seti("lo", lo); c.seti("hi", hi); c.seti("step", step); cases.push_back(c); };
+    auto add = [&](long lo, long hi, long step, int db) { CaseFile c; c.set("mode", "sweep"); c.seti("lo", lo); c.seti("hi", hi); c.seti("step", step); c.seti("db", db); cases.push_back(c); };
     long idx = 0;
     for (long ci = 0; ci <= 0x10FFFF / 0x400; ci++, idx++) {
         if (idx % nw != w) continue;
-        if (thorough) add(std::max(1L, ci * 0x400), ci * 0x400 + 0x3FF, 1);
-        else { long lo = ci * 0x400 + (vseed % 64); add(std::max(1L, lo), ci * 0x400 + 0x3FF, 64); }
+        if (thorough) add(std::max(1L, ci * 0x400), ci * 0x400 + 0x3FF, 1, 1);
+        else { long lo = ci * 0x400 + (vseed % 8); add(std::max(1L, lo), ci * 0x400 + 0x3FF, 8, 0); }   // deterministic 1/8 sample, residue chosen by VERIF_SEED
     }
     if (!thorough) {
-        for (uint32_t cp : INTERESTING) if (idx++ % nw == w) add(cp, cp, 1);
-        for (auto &r : INTERESTING_RANGES) for (long lo = r[0]; lo <= r[1]; lo += 0x40) if (idx++ % nw == w) add(lo, std::min((long) r[1], lo + 0x3F), 1);
+        for (uint32_t cp : INTERESTING) if (idx++ % nw == w) add(cp, cp, 1, 1);
+        for (auto &r : INTERESTING_RANGES) for (long lo = r[0]; lo <= r[1]; lo += 0x40) if (idx++ % nw == w) add(lo, std::min((long) r[1], lo + 0x3F), 1, 1);
     }
     note(thorough ? "sweep_exhaustive" : "sweep_sampled", 1);
     bool ok = true;
@@ -984,11 +1003,13 @@ int main(int argc, char **argv) {
         { cif_tp *w = nullptr; if (cif_create(&w) == CIF_OK) (void) cif_destroy(w); }   // warm up lazy global initialisation (SQLite, ICU data)
         { UChar *r = nullptr; if (cif_normalize(u"Åͅ", -1, &r) == CIF_OK) cm::ufree(r); (void) cm::norm_name(u"Åͅ"); }
         bool ok = true;
-        ok = check_n("C09(1) cif_normalize: idempotent, equal on equivalent / different on inequivalent spellings, equal to the independent pipeline, srclen", 8, 0, []() { drive(build_norm()); }) && ok;
-        ok = check_n("C09(2) blocks, frames, items and packet items are found / duplicate / removable under exactly the equivalent spellings", 1, 1, []() { drive(build_lookup()); }) && ok;
-        ok = check_n("C09(3) table keys match by canonical equivalence only and enumerate in the most recently set spelling", 4, 2, []() { drive(build_keys()); }) && ok;
-        ok = check_n("C09(4) names, codes and keys are accepted exactly when valid, else refused with the documented code", 1, 3, []() { drive(build_valid()); }) && ok;
-        if (ok) ok = run_sweeps();
+        const char *only_env = getenv("C09_ONLY"); std::string only = only_env ? only_env : "";   // debugging aid: run one sub-property
+        auto want = [&](const char *m) { return only.empty() || only == m; };
+        if (want("norm")) ok = check_n("C09(1) cif_normalize: idempotent, equal on equivalent / different on inequivalent spellings, equal to the independent pipeline, srclen", 8, 0, []() { drive(build_norm()); }) && ok;
+        if (want("lookup")) ok = check_n("C09(2) blocks, frames, items and packet items are found / duplicate / removable under exactly the equivalent spellings", 2, 1, []() { drive(build_lookup()); }) && ok;
+        if (want("keys")) ok = check_n("C09(3) table keys match by canonical equivalence only and enumerate in the most recently set spelling", 4, 2, []() { drive(build_keys()); }) && ok;
+        if (want("valid")) ok = check_n("C09(4) names, codes and keys are accepted exactly when valid, else refused with the documented code", 2, 3, []() { drive(build_valid()); }) && ok;
+        if (ok && want("sweep")) ok = run_sweeps();
         return ok;
     };
     e.replay = run_case;
